@@ -87,3 +87,31 @@ package config
 //@   pure
 //@   requires aset(c.Listen.value)
 //@   ensures [C18] result == nil ==> len(cfgval(c.Listen)) > 0
+
+// ---------------------------------------------------------------- updates (C18)
+
+// Reflection walk over the configuration tree: not translated.  Assumed: it
+// stages the addressed properties (writes their atomic cells, which fires their
+// change events) and returns them.
+//@ func setPropsFromMapRecursive
+//@   trusted
+//@   assigns atomicValue: ghost:gocount ghost:golastarg
+
+// Committing a staged property (interface method; the implementation is ConfigProp.CommitStaged, verified above).
+//@ func stagedProp.CommitStaged
+//@   assigns atomicValue:
+
+//@ func Config.persist
+//@   trusted
+//@   assigns nothing
+
+//@ func checkIsSetRecursive
+//@   trusted
+//@   pure
+
+// A rejected update changes nothing: no committed value, no notification.
+//@ props C18
+//@ func UpdatePartialFromConfig
+//@   requires cfg != nil && specCacheSet(cfg.Cache) && aset(cfg.Proxy.Listen.value) && aset(cfg.Proxy.CaCert.value) && aset(cfg.Proxy.CaKey.value) && aset(cfg.Webserver.Listen.value)
+//@   ensures [C18] result1 != nil ==> unchanged("atomicValue") && (forall f int :: gocalls(f) == old(gocalls(f)))
+//@   loop 1 invariant cfg != nil && specCacheSet(cfg.Cache) && aset(cfg.Proxy.Listen.value) && aset(cfg.Proxy.CaCert.value) && aset(cfg.Proxy.CaKey.value) && aset(cfg.Webserver.Listen.value)
